@@ -4,6 +4,11 @@ import json, os
 HERE = os.path.dirname(os.path.abspath(__file__))
 
 CLAIMED = {
+ 'C16': dict(
+   text='PARTIAL. That the BFS forest is spanning and acyclic is value-level and not claimed. Decided: create_index makes exactly one pass over boost::edges(g) in which each arm stores index[e] = c and reverse_index[c] = e for the same edge and counter and then increments that counter once, one arm per counter, the counters start at 0 and at num_edges - num_vertices + components (linear-form normalisation through the class\'s field definitions), the arm is selected by membership in the forest set with the right polarity, no index is handed out while iterating an address-ordered set; cycle_space_dimension / weak_connected_components / is_on_forest / both operator() have the required normal forms; spanning_forest returns 0 early only when there are no vertices (abstract evaluation of the guard) and otherwise a counter incremented exactly once per component-loop iteration; the hand-written copy constructor and assignment copy every data member.',
+   note='Together these give the bijection and the "off-forest edges first" numbering for whatever edge set spanning_forest reports; the forest property of that set is assumed.',
+   technique='per-path pairing on the CFG, linear-form normalisation, truth table of the arm guard, abstract evaluation of early-return guards, member-wise copy rule',
+   ref='DESIGN.md §4 C16'),
  'C04': dict(
    text='Decides the communication shape of the three library functions that execute collectives: both arms of every rank-conditioned branch run the same ordered sequence of collectives (name, root), every other branch or loop that decides whether a collective runs has a condition free of rank-dependent data (rank atoms, out-arguments of root-only collectives, their derivations), no exit depends on the rank, and in each phase the support vector is the argument of a broadcast on every path before it is used. The rank slices are evaluated abstractly (constant folding of the stride/start/end expressions in their C++ arithmetic) for 9 totals x 9 communicator sizes and must be an exact partition of 0..total-1; a sliced sequence whose order comes from a std::set<Edge> (address order) must be sorted by forest index first, and ForestIndex itself must not number edges while iterating such a set; serialize() archives every member once, is_mpi_datatype types are arithmetic-only, the MPI reduction operator is a minimum with not-found as identity, only rank 0 emits. Optimality of the result inherits the limits of C01/C02.',
    note='Assumes identical graph contents on all ranks and boost::mpi collective semantics. Rank-invariance is a flow-insensitive taint argument; data merely written under a rank-conditioned branch is covered by the broadcast-before-use obligation instead.',
